@@ -104,7 +104,7 @@ class LoaderFault(object):
             return
         sim = self.sim
         if self.path is None:
-            if not os.path.exists(path):
+            if getattr(self, "need_existing", True) and not os.path.exists(path):
                 return
             n = self.n
             self.n += 1
@@ -113,7 +113,7 @@ class LoaderFault(object):
             self.path = path
             self.left = self.persist
             sim.fault("injected_io_error")
-            sim.fault("injected_loader_error_%s" % errno.errorcode.get(self.err, self.err))
+            sim.fault("injected_%s_error_%s" % ("loader" if getattr(self, "need_existing", True) else "writer", errno.errorcode.get(self.err, self.err)))
             sim.event("inject-load", sim.rel(path), self.err)
             sim.injected_at = (sim.step, sim.now)
             sim.vtime_cap = sim.now + LIVENESS_BOUND + 10.0
@@ -246,7 +246,15 @@ def run_one(ch, env):
     res["config"].update(common.sched_config(sim))
     if io_mode:
         rec = stages.Recorder(sim, nyield)
-        if ch.draw(2, kind="io_fault_level") == 1:
+        lvl = ch.draw(3, kind="io_fault_level")
+        if lvl == 2:
+            # the storage gives out in the middle of writing a tile (inside Image.save, beneath PyramidIO.write_image)
+            werr = LOADER_ERRNOS[ch.draw(len(LOADER_ERRNOS), kind="writer_errno")]
+            lf = LoaderFault(sim, k, werr, 1)
+            lf.need_existing = False
+            sim.write_fault = lf
+            res["config"].update(fault="tile-writer", writer_errno=errno.errorcode.get(werr))
+        elif lvl == 1:
             lerr = LOADER_ERRNOS[ch.draw(len(LOADER_ERRNOS), kind="loader_errno")]
             persist = (1, 3, 8, 1000)[ch.draw(4, kind="loader_fault_attempts")]
             sim.load_fault = LoaderFault(sim, k, lerr, persist)
